@@ -31,8 +31,11 @@ struct sink
         if (!f) { std::perror(path); std::_Exit(2); }
     }
     void close() { if (f) { std::fclose(f); f = nullptr; } }
+    // per thread: events are collected in a buffer instead (replayed into the file later, e.g. one group of ranks after the other)
+    static std::vector<std::string>*& capture() { static thread_local std::vector<std::string>* c = nullptr; return c; }
     void write(std::string const& s)
     {
+        if (capture()) { std::lock_guard<std::mutex> g(m); capture()->push_back(s); return; }
         std::lock_guard<std::mutex> g(m);
         if (!f) return;
         std::fputs(s.c_str(), f);
